@@ -22,7 +22,11 @@ GROUPS_QUICK = [("os2_cap1", 1), ("os2_cap2", 0), ("os2_max1", -1), ("mixed", 1)
 GROUPS_THOROUGH = GROUPS_QUICK + [("os2_cap1", -1), ("os2_cap1", 0), ("os2_cap2", 1), ("mixed", 0),
                                   ("os2_max1", 1)]
 
-MON_STYLE_L = {"C05", "C14", "C11", "C12"}     # monitors whose violations live in m.L.viol
+# which input alphabets of MC_O_events serve which property
+ALPHAS = {"C03": ["events"], "C14": ["events"], "C13": ["events", "ctl"], "C05": ["events", "ctl"],
+          "C04": ["ctl"], "C12": ["ctl", "events"], "C07": ["ctl"], "C11": ["events"]}
+GROUPS_CTL_QUICK = [("os2_cap1", 1), ("mixed", 0)]
+GROUPS_CTL_THOROUGH = [("os2_cap1", 1), ("mixed", 0), ("os2_cap2", -1), ("os2_max1", 1)]
 
 
 def open_devs(known):
@@ -67,16 +71,26 @@ def ensure_dev_defs(all_sets):
 def design_check(prop, tier, wd, devs_open):
     """TLC on the intended design (all deviations off) with the monitor of `prop` in lock-step.
     A counter-example here is a defect of the specification or the monitor: tool error."""
-    depth = 6 if tier == "quick" else 7
-    groups = [("os2_cap1", 1)] if tier == "quick" else [("os2_cap1", 1), ("os2_cap2", 0), ("mixed", 1)]
     out = {"states": 0, "transitions": 0, "runs": []}
-    for model, retries in groups:
-        cfg = os.path.join(wd, "mc_%s_%d.cfg" % (model, retries))
+    runs = []
+    for alpha in ALPHAS[prop]:
+        if alpha == "events":
+            depth = 6 if tier == "quick" else 7
+            groups = [("os2_cap1", 1)] if tier == "quick" else [("os2_cap1", 1), ("os2_cap2", 0), ("mixed", 1)]
+            if len(ALPHAS[prop]) > 1 and tier == "quick":
+                depth = 5
+        else:
+            depth = 5 if tier == "quick" else 6
+            groups = [("os2_cap1", 1)] if tier == "quick" else [("os2_cap1", 1), ("mixed", 0)]
+        runs += [(alpha, depth, g) for g in groups]
+    for alpha, depth, (model, retries) in runs:
+        cfg = os.path.join(wd, "mc_%s_%s_%d.cfg" % (alpha, model, retries))
         c = constants(model, retries, "DEV_none",
-                      {"MaxUpd": 3, "MaxSteps": depth, "Classes": ("<-", "Cl123"), "MonName": '"%s"' % prop})
+                      {"MaxUpd": 3 if alpha == "events" else 1, "MaxSteps": depth, "Classes": ("<-", "Cl123"),
+                       "MonName": '"%s"' % prop, "Alpha": '"%s"' % alpha})
         vlib.write_cfg(cfg, "Spec", c, ["NoViolation", "NoPanic", "CountersExact"], view="View")
         r = vlib.model_check("MC_O_events.tla", cfg, workers=12, timeout=3000)
-        out["runs"].append({"model": model, "retries": retries, "depth": depth, "distinct": r["distinct"],
+        out["runs"].append({"alpha": alpha, "model": model, "retries": retries, "depth": depth, "distinct": r["distinct"],
                             "generated": r["generated"], "wall_s": r["wall_s"], "dev": []})
         out["states"] += r["distinct"]
         out["transitions"] += r["generated"]
@@ -96,7 +110,7 @@ def asbuilt_witnesses(prop, tier, wd, devs_open):
             cfg = os.path.join(wd, "mcdev_%s_%s.cfg" % (dev, model))
             c = constants(model, retries, dev_defs([dev]),
                           {"MaxUpd": 3, "MaxSteps": 7 if tier == "quick" else 8, "Classes": ("<-", "Cl123"),
-                           "MonName": '"%s"' % prop})
+                           "MonName": '"%s"' % prop, "Alpha": '"%s"' % ALPHAS[prop][0]})
             vlib.write_cfg(cfg, "Spec", c, ["NoViolation", "NoPanic"], view="View")
             try:
                 r = vlib.model_check("MC_O_events.tla", cfg, workers=12, timeout=150 if tier == "quick" else 1200)
@@ -114,18 +128,25 @@ def asbuilt_witnesses(prop, tier, wd, devs_open):
     return wits, runs
 
 
-def simulated(tier, wd, devs_open, groups, num, depth):
+def simulated(tier, wd, devs_open, alpha, groups, num, depth):
     """TLC -simulate on the as-built specification: random behaviours, exported as resolved inputs"""
     out = []
     sd = vlib.seed()
     for gi, (model, retries) in enumerate(groups):
-        cfg = os.path.join(wd, "sim_%s_%d.cfg" % (model, retries))
+        cfg = os.path.join(wd, "sim_%s_%s_%d.cfg" % (alpha, model, retries))
         c = constants(model, retries, dev_defs(devs_open),
-                      {"MaxUpd": 6, "MaxSteps": depth, "Classes": ("<-", "Cl123"), "MonName": '"none"'})
+                      {"MaxUpd": 6 if alpha == "events" else 2, "MaxSteps": depth, "Classes": ("<-", "Cl123"),
+                       "MonName": '"none"', "Alpha": '"%s"' % alpha})
         vlib.write_cfg(cfg, "Spec", c, ["Export"])
-        hists = vlib.simulate("MC_O_events.tla", cfg, num, depth + 10, sd * 1000 + gi)
+        hists = vlib.simulate("MC_O_events.tla", cfg, num, depth + 10, sd * 1000 + gi + (100 if alpha == "ctl" else 0))
+        # TLC prints many more behaviours than asked for; keep a seeded sample
+        rnd = random.Random(sd * 7919 + gi)
+        cap = 150 if tier == "quick" else 4000
+        if len(hists) > cap:
+            hists = rnd.sample(hists, cap)
         for i, h in enumerate(hists):
-            out.append({"id": "sim_%s_r%d_%d" % (model, retries, i), "model": model, "retries": retries, "hist": h})
+            out.append({"id": "sim_%s_%s_r%d_%d" % (alpha, model, retries, i), "model": model,
+                        "retries": retries, "hist": h})
     return out
 
 
@@ -154,9 +175,13 @@ def run(prop, tier, replay=None):
                        if f["status"] == "open" and prop in f.get("reasons", {})})
         wits, wit_runs = asbuilt_witnesses(prop, tier, wd, mine)
     abstract += wits
-    groups = GROUPS_QUICK if tier == "quick" else GROUPS_THOROUGH
-    abstract += simulated(tier, wd, devs_open, groups, 60 if tier == "quick" else 1500,
-                          25 if tier == "quick" else 40)
+    for alpha in ALPHAS[prop]:
+        if alpha == "events":
+            groups = GROUPS_QUICK if tier == "quick" else GROUPS_THOROUGH
+        else:
+            groups = GROUPS_CTL_QUICK if tier == "quick" else GROUPS_CTL_THOROUGH
+        abstract += simulated(tier, wd, devs_open, alpha, groups, 60 if tier == "quick" else 1500,
+                              25 if tier == "quick" else 40)
     if replay:
         with open(replay) as f:
             rp = json.load(f)
